@@ -52,7 +52,8 @@ def _pairs():
     cf = importlib.import_module('elftools.dwarf.callframe')
     for v, k in cf._OPCODE_NAME_MAP.items():
         ev.append(('dwarf.callframe._OPCODE_NAME_MAP', k, v, 'rev'))
-    return ev
+    return [e for e in ev if isinstance(e[2], int) and not isinstance(e[2], bool) and isinstance(e[1], str)
+            and e[1] != '_default_']
 
 
 # Library names that are spelled differently from the registry's name for the same constant.
@@ -61,16 +62,25 @@ def _registry_name(table, name):
     return name
 
 
+def _digs(v):
+    v &= 0xffffffffffffffff
+    return list(v.to_bytes(max(1, (v.bit_length() + 7) // 8), 'little'))
+
+
+def _undigs(d):
+    return int.from_bytes(bytes(d), 'little')
+
+
 def check(run):
     pairs = _pairs()
-    events = [{'table': t, 'name': _registry_name(t, n), 'value': str(v), 'kind': k} for t, n, v, k in pairs]
+    events = [{'table': t, 'name': _registry_name(t, n), 'value': _digs(v), 'kind': k} for t, n, v, k in pairs]
     trace = run.trace_file('registry', events)
     res = run.tlc('RegistryTrace', 'RegistryTrace', env={'TRACE': trace}, workers=1)
     verdicts = list(run.cases(res.out))
     if len(verdicts) != 1:
         raise core.MachineryError('RegistryTrace wrote %d verdicts\n%s' % (len(verdicts), res.stdout[-2000:]))
     checked, unknown = verdicts[0]['checked'], verdicts[0]['unknown']
-    bad = [tuple(b) for b in verdicts[0]['bad']]
+    bad = [(b[0], b[1], tuple(b[2]), tuple(b[3]), b[4]) for b in verdicts[0]['bad']]
     if checked + unknown != len(events):
         raise core.MachineryError('trace not consumed: %d + %d != %d' % (checked, unknown, len(events)))
     run.evaluations = len(events)
@@ -79,7 +89,7 @@ def check(run):
     run.nontrivial = set((t, n) for t, n, v, k in pairs if n in regn)
     run.validated = checked
     for table, name, value, want, kind in sorted(set(bad)):
-        run.mismatch('registry.' + kind, name, {'table': table, 'name': name}, want, value)
+        run.mismatch('registry.' + kind, name, {'table': table, 'name': name}, _undigs(want), _undigs(value))
     run.samples = [{'table': t, 'name': n, 'value': v, 'registry': regn.get(n, [None])[0]} for t, n, v, k in pairs[::401]][:4]
     run.rule = ('one case per exported (table, name, value) pair of elf/enums.py, elf/constants.py, dwarf/enums.py, '
                 'dwarf/constants.py, DW_OP tables and the CFA opcode map; non-trivial = the name is defined by the vendored '
